@@ -139,3 +139,234 @@ Proof. vm_compute. auto. Qed.
 Theorem C01_b64_rejects_bad_length : forall s, (length (b64_strip s) mod 4 <> 0)%nat -> b64_decode s = None.
 Proof. exact decode_rejects_bad_length. Qed.
 Print Assumptions C01_b64_rejects_bad_length.
+
+(* ======================= the whole transfer (Model/Transfer.v, "L3") =======================
+   Sender and receiver as deterministic message-level machines composed over two perfect FIFO
+   queues ([tr_run], explicit fuel; [tr_fuel] = the number of messages of the transfer).
+   Protocol >= 2 (frames of ARBITRARY sizes, per-frame acks, final ack, COMP flag) and protocol 1
+   (stop and wait); plain names and JSON names / directory mode; overwrite on and off through
+   Names.v's creation functions on the abstract file system; upload and download (who says EXIT).
+   External code is abstract: MD5 = [H] (nothing is assumed of it: on a fault-free link both ends
+   hash the same bytes), digest comparison [deq] reflexive, zstd / zlib = any coder with the round
+   trip whose output consists of bytes.
+   NOT covered (the machines enter an ..Unmodelled phase, which no theorem counts as success): the
+   archive stream for directories with protocol >= 4 and overwrite off (C15) and the resume
+   exchange of protocol >= 3 onto a non-empty existing file (C08). *)
+From Coq Require Import ZArith.
+From Trzsz Require Import Model.Path Model.Fs Model.Names Model.RelayNeg Model.Transfer
+  Proofs.PathFs Proofs.TransferFs Proofs.Transfer Proofs.RelayNeg.
+
+Section C01_transfer.
+Variable digest : Type.
+Variable H : list byte -> digest.
+Variable deq : digest -> digest -> bool.
+Hypothesis deq_refl : forall a, deq a a = true.
+Variable zcomp : list (list byte) -> list (list byte).
+Variable zdecomp : list byte -> option (list byte).
+Hypothesis z_roundtrip : forall cs, zdecomp (concat (zcomp cs)) = Some (concat cs).
+Hypothesis z_bytes : forall cs, bytes_ok (concat (zcomp cs)) = true.
+Variable zl : list byte -> list byte.
+Variable unzl : list byte -> option (list byte).
+Hypothesis zl_roundtrip : forall d, unzl (zl d) = Some d.
+Hypothesis zl_bytes : forall d, bytes_ok (zl d) = true.
+
+(* For every configuration, every list of source entries with a per-file schedule (frame sizes,
+   the compression heuristic's verdict, the receiver's disk progress), every prior file system:
+   if the escape table is absent or well-formed, the contents are bytes, the destination is a
+   directory, the source list is well-formed ([tr_wf]: what checkPathsReadable / checkDuplicateNames
+   guarantee) and the receiver's name handling accepts every entry ([tr_spec] <> None: no name
+   exhaustion, no path collision, no resume — the premise of the Names theorems, cf.
+   C07_consistent_names_full), then with fuel [tr_fuel] or more the run ends with BOTH sides
+   reporting success, both queues empty, the sender's remote names = the receiver's local names,
+   every entry at its place below its reported name with the source's bytes ([tr_tree_at]), and a
+   transcript of the shape of the grammar. *)
+Theorem C01_transfer : forall c d ess f0 per all stf,
+  tr_table_ok c -> Forall (fun es => bytes_ok (te_data (fst es)) = true) ess ->
+  stat f0 d = SFound Dir -> tr_wf c (map fst ess) ->
+  tr_spec c d (map fst ess) (init_state f0) [] = Some (per, all, stf) ->
+  forall fuel, (tr_fuel digest zcomp c ess <= fuel)%nat ->
+  tr_outcome_ok c d f0 ess (tr_run digest H deq zcomp zdecomp zl unzl fuel c d ess f0).
+Proof. exact (transfer_ok digest H deq zcomp zdecomp zl unzl deq_refl z_roundtrip z_bytes zl_roundtrip zl_bytes). Qed.
+
+(* the run itself, exactly: final states, and the receiver's file system is the one Names.v computes *)
+Theorem C01_transfer_final : forall c d ess f0 per all stf,
+  tr_table_ok c -> Forall (fun es => bytes_ok (te_data (fst es)) = true) ess ->
+  tr_spec c d (map fst ess) (init_state f0) [] = Some (per, all, stf) ->
+  forall fuel, (tr_fuel digest zcomp c ess <= fuel)%nat ->
+  tr_run digest H deq zcomp zdecomp zl unzl fuel c d ess f0 =
+  mkConf digest (mkSS SpDone [] all) (mkRS RpDone O stf all []) [] [] (full_log digest H zcomp zl c ess per all).
+Proof. exact (run_complete digest H deq zcomp zdecomp zl unzl deq_refl z_roundtrip z_bytes zl_roundtrip zl_bytes). Qed.
+
+(* The converse direction of the same composition: whenever the run has enough fuel or has come
+   to rest, success reported by EITHER side implies all of the above.  (If the receiver refuses an
+   entry, or an unmodelled exchange would start, neither side ever reports success.) *)
+Theorem C01_success_implies_identical : forall c d ess f0,
+  tr_table_ok c -> Forall (fun es => bytes_ok (te_data (fst es)) = true) ess ->
+  Forall (fun es => te_isdir (fst es) = true -> tr_json c = true) ess ->
+  stat f0 d = SFound Dir -> tr_wf c (map fst ess) ->
+  forall fuel,
+  (tr_fuel digest zcomp c ess <= fuel)%nat \/ tr_quiet digest (tr_run digest H deq zcomp zdecomp zl unzl fuel c d ess f0) = true ->
+  tr_sender_ok digest (tr_run digest H deq zcomp zdecomp zl unzl fuel c d ess f0) = true \/
+  tr_receiver_ok digest (tr_run digest H deq zcomp zdecomp zl unzl fuel c d ess f0) = true ->
+  tr_outcome_ok c d f0 ess (tr_run digest H deq zcomp zdecomp zl unzl fuel c d ess f0).
+Proof. exact (success_implies_ok digest H deq zcomp zdecomp zl unzl deq_refl z_roundtrip z_bytes zl_roundtrip zl_bytes). Qed.
+
+Theorem C01_refused_never_succeeds : forall c d ess f0,
+  tr_table_ok c -> Forall (fun es => bytes_ok (te_data (fst es)) = true) ess ->
+  Forall (fun es => te_isdir (fst es) = true -> tr_json c = true) ess ->
+  tr_spec c d (map fst ess) (init_state f0) [] = None ->
+  forall fuel, (tr_fuel digest zcomp c ess <= fuel)%nat ->
+  tr_sender_ok digest (tr_run digest H deq zcomp zdecomp zl unzl fuel c d ess f0) = false /\
+  tr_receiver_ok digest (tr_run digest H deq zcomp zdecomp zl unzl fuel c d ess f0) = false.
+Proof. exact (run_incomplete digest H deq zcomp zdecomp zl unzl deq_refl z_roundtrip z_bytes zl_roundtrip zl_bytes). Qed.
+
+(* The acceptance premise discharged by a condition on the inputs alone ([tr_ready]): clean names
+   (checkFileName accepts them, no NUL, at most 255 bytes), no two entries at one place, parents
+   first, one top-level name per path id, a clean destination path, and nothing in the way at the
+   destination.  Then the transfer ALWAYS completes, for uploads and downloads, protocol 1 to 4,
+   plain and directory mode, overwrite on and off, every frame-size schedule; the names are the
+   names as sent; and the destination differs from what it was in the entries' own places only
+   (so below the reported names it IS the source tree, nothing more). *)
+Theorem C01_transfer_ready : forall c d ess f0,
+  tr_table_ok c -> Forall (fun es => bytes_ok (te_data (fst es)) = true) ess ->
+  stat f0 d = SFound Dir -> Forall tr_comp_ok d -> tr_ready c d f0 (map fst ess) ->
+  forall fuel, (tr_fuel digest zcomp c ess <= fuel)%nat ->
+  let cf := tr_run digest H deq zcomp zdecomp zl unzl fuel c d ess f0 in
+  tr_outcome_ok c d f0 ess cf /\
+  ss_names (cf_s digest cf) = fold_left tr_add_name (map (tr_key c) (map fst ess)) [] /\
+  (forall q, q <> [] -> (forall e, In e (map fst ess) -> q <> tr_leaf_of c d e) ->
+     lookup (st_fs (rs_st (cf_r digest cf))) q = lookup f0 q).
+Proof. exact (transfer_ready digest H deq zcomp zdecomp zl unzl deq_refl z_roundtrip z_bytes zl_roundtrip zl_bytes). Qed.
+End C01_transfer.
+
+Print Assumptions C01_transfer.
+Print Assumptions C01_transfer_final.
+Print Assumptions C01_success_implies_identical.
+Print Assumptions C01_refused_never_succeeds.
+Print Assumptions C01_transfer_ready.
+
+(* The sequence of message TYPES of a transfer is a word of the grammar
+     NUM SUCC (NAME SUCC [SIZE SUCC [COMP] DATA* finish ack* SUCC+ MD5 SUCC])* EXIT       protocol >= 2
+     NUM SUCC (NAME SUCC [SIZE SUCC (DATA SUCC)* MD5 SUCC])* EXIT                          protocol 1
+   ([tr_shape_ok]: a deterministic automaton over the tags), for every configuration, entry list,
+   schedule and list of local names: no hypothesis at all. *)
+Theorem C01_transcript_shape : forall digest H zcomp zl c ess per all,
+  tr_shape_ok digest (tr_pipeline c) (full_log digest H zcomp zl c ess per all) = true.
+Proof. exact shape_ok. Qed.
+Print Assumptions C01_transcript_shape.
+
+(* both ends of a negotiated session (C14: direct or through relays that see the same
+   Windows-server fact) run the transfer with one and the same configuration *)
+Theorem C01_negotiated_same_cfg : forall g win es wa so cc upload, es = [] \/ same_win win es ->
+  negotiate g win es wa = OutAgreed so cc -> tr_cfg_of so upload = tr_cfg_of cc upload.
+Proof. exact negotiated_same_cfg. Qed.
+Print Assumptions C01_negotiated_same_cfg.
+
+(* the well-formedness of a source list is decidable *)
+Theorem C01_wf_decidable : forall c es, tr_wfb c es = true -> tr_wf c es.
+Proof. exact tr_wfb_ok. Qed.
+Print Assumptions C01_wf_decidable.
+
+(* the codec hypotheses are satisfiable (a unary, 0-terminated coding in place of zstd / zlib) *)
+Theorem C01_codec_hypotheses_satisfiable :
+  (forall cs, wit_zdecomp (concat (wit_zcomp cs)) = Some (concat cs)) /\
+  (forall cs, bytes_ok (concat (wit_zcomp cs)) = true) /\
+  (forall d, wit_unzl (wit_zl d) = Some d) /\ (forall d, bytes_ok (wit_zl d) = true).
+Proof. exact wit_codec_ok. Qed.
+Print Assumptions C01_codec_hypotheses_satisfiable.
+
+(* ---- non-vacuity: concrete transfers meet every premise, and the run computes ---- *)
+Definition ex_d : path := [[100]].                                 (* /d *)
+(* a directory "a" with a file "x" in it, and a file "b"; /d already holds a file "a" *)
+Definition ex_tree : list (tr_entry * tr_sched) :=
+  let sc := mkTrSched [3; 1]%nat 2 false [0; 3] [1] in
+  [(mkTrEntry 0 [[97]] true [], sc);
+   (mkTrEntry 0 [[97]; [120]] false [[1; 126]; [238; 27]], sc);
+   (mkTrEntry 1 [[98]] false [], sc)].
+Definition ex_f0 : fs := [([[100]], Dir); ([[100]; [97]], File [9])].
+Definition ex_run (c : tr_cfg) :=
+  tr_run (list byte) (fun x => x) list_eqb wit_zcomp wit_zdecomp wit_zl wit_unzl
+    (tr_fuel (list byte) wit_zcomp c ex_tree) c ex_d ex_tree ex_f0.
+Definition ex_summary (c : tr_cfg) :=
+  let cf := ex_run c in
+  (tr_sender_ok _ cf, tr_receiver_ok _ cf, ss_names (cf_s _ cf), rs_names (cf_r _ cf),
+   lookup (st_fs (rs_st (cf_r _ cf))) [[100]; [97; 46; 48]; [120]], lookup (st_fs (rs_st (cf_r _ cf))) [[100]; [97]],
+   tr_shape_ok _ (tr_pipeline c) (cf_log _ cf)).
+
+(* protocol 3, directory mode, overwrite off, binary with the escape-all table, download:
+   the directory lands as "a.0" next to the old file "a", which keeps its bytes *)
+Example C01_transfer_nonvacuous_v3 :
+  let c := mkTrCfg 3 true true false 0 (builtin_table true) false in
+  tr_table_ok c /\ Forall (fun es => bytes_ok (te_data (fst es)) = true) ex_tree /\
+  stat ex_f0 ex_d = SFound Dir /\ tr_wf c (map fst ex_tree) /\
+  (exists r, tr_spec c ex_d (map fst ex_tree) (init_state ex_f0) [] = Some r) /\
+  ex_summary c = (true, true, [[97; 46; 48]; [98]], [[97; 46; 48]; [98]],
+                  Some (File [1; 126; 238; 27]), Some (File [9]), true).
+Proof.
+  cbv zeta. split; [right; vm_compute; reflexivity|]. split; [repeat constructor|].
+  split; [vm_compute; reflexivity|]. split; [apply tr_wfb_ok; vm_compute; reflexivity|].
+  split; [eexists; vm_compute; reflexivity | vm_compute; reflexivity].
+Qed.
+
+(* protocol 2 (compressed base64 frames), directory mode, overwrite on, upload *)
+Example C01_transfer_nonvacuous_v2 :
+  let c := mkTrCfg 2 false true true 0 [] true in
+  let f0 : fs := [([[100]], Dir)] in
+  tr_wf c (map fst ex_tree) /\
+  (exists r, tr_spec c ex_d (map fst ex_tree) (init_state f0) [] = Some r) /\
+  (let cf := tr_run (list byte) (fun x => x) list_eqb wit_zcomp wit_zdecomp wit_zl wit_unzl
+               (tr_fuel (list byte) wit_zcomp c ex_tree) c ex_d ex_tree f0 in
+   (tr_sender_ok _ cf, tr_receiver_ok _ cf, ss_names (cf_s _ cf),
+    lookup (st_fs (rs_st (cf_r _ cf))) [[100]; [97]; [120]], tr_shape_ok _ true (cf_log _ cf))) =
+  (true, true, [[97]; [98]], Some (File [1; 126; 238; 27]), true).
+Proof.
+  cbv zeta. split; [apply tr_wfb_ok; vm_compute; reflexivity|].
+  split; [eexists; vm_compute; reflexivity | vm_compute; reflexivity].
+Qed.
+
+(* protocol 1 (stop and wait, chunks of 3 then 2 bytes), plain names, overwrite off: two files
+   with one base name land as "x" and "x.0" *)
+Example C01_transfer_nonvacuous_v1 :
+  let c := mkTrCfg 0 false false false 0 [] true in
+  let sc := mkTrSched [3]%nat 2 false [] [] in
+  let ess := [(mkTrEntry 0 [[120]] false [[1; 2; 3; 4; 5; 6]], sc); (mkTrEntry 1 [[120]] false [[7]], sc)] in
+  let f0 : fs := [([[100]], Dir)] in
+  tr_wf c (map fst ess) /\
+  (let cf := tr_run (list byte) (fun x => x) list_eqb wit_zcomp wit_zdecomp wit_zl wit_unzl
+               (tr_fuel (list byte) wit_zcomp c ess) c ex_d ess f0 in
+   (tr_sender_ok _ cf, tr_receiver_ok _ cf, rs_names (cf_r _ cf),
+    lookup (st_fs (rs_st (cf_r _ cf))) [[100]; [120]], lookup (st_fs (rs_st (cf_r _ cf))) [[100]; [120; 46; 48]],
+    tr_shape_ok _ false (cf_log _ cf))) =
+  (true, true, [[120]; [120; 46; 48]], Some (File [1; 2; 3; 4; 5; 6]), Some (File [7]), true).
+Proof. cbv zeta. split; [apply tr_wfb_ok; vm_compute; reflexivity | vm_compute; reflexivity]. Qed.
+
+(* and a refusal: the destination already holds a DIRECTORY "b", overwrite on: the file "b" cannot
+   be created, neither side reports success *)
+Example C01_refusal_nonvacuous :
+  let c := mkTrCfg 2 false true true 0 [] true in
+  let f0 : fs := [([[100]], Dir); ([[100]; [98]], Dir)] in
+  tr_spec c ex_d (map fst ex_tree) (init_state f0) [] = None /\
+  (let cf := tr_run (list byte) (fun x => x) list_eqb wit_zcomp wit_zdecomp wit_zl wit_unzl
+               (tr_fuel (list byte) wit_zcomp c ex_tree) c ex_d ex_tree f0 in
+   (tr_sender_ok _ cf, tr_receiver_ok _ cf)) = (false, false).
+Proof. cbv zeta. split; vm_compute; reflexivity. Qed.
+
+(* [tr_ready] is met by a small tree and an empty destination directory *)
+Example C01_ready_nonvacuous :
+  let c := mkTrCfg 4 true true true 0 (builtin_table false) true in
+  tr_ready c ex_d [([[100]], Dir)] (map fst ex_tree) /\ Forall tr_comp_ok ex_d.
+Proof.
+  cbv zeta. split; [|repeat constructor].
+  unfold tr_ready. split; [|split; [|split; [|split]]].
+  - repeat constructor; try discriminate; intros; try reflexivity; discriminate.
+  - apply (nodupb_ok path_eqb); [intros a b; apply path_eqb_eq | vm_compute; reflexivity].
+  - intros pre e post Hes Ht. cbv [ex_tree map fst] in Hes.
+    destruct pre as [|p0 [|p1 [|p2 pre]]]; cbn [app] in Hes; inversion Hes; subst; clear Hes.
+    + exfalso. apply Ht. reflexivity.
+    + eexists. split; [left; reflexivity|]. repeat split.
+    + exfalso. apply Ht. reflexivity.
+    + destruct pre; discriminate.
+  - intros e e' [<-|[<-|[<-|[]]]] [<-|[<-|[<-|[]]]]; cbn; split; intro Hx; try reflexivity; discriminate.
+  - intros e [<-|[<-|[<-|[]]]]; reflexivity.
+Qed.
+
